@@ -20,6 +20,9 @@ def main():
             na.append({"property_id": pid, "reason": "check not built yet in this round (planned: Lean model + proofs + correspondence, see DESIGN.md section 5); not a limit of the technique"})
             continue
         p = importlib.import_module("vlib.props." + pid)
+        if not p.THEOREMS:
+            na.append({"property_id": pid, "reason": "model, Spec oracle and correspondence suite run, but the Lean property theorems are still being proved; claimed as soon as they check"})
+            continue
         checks.append({
             "property_id": pid,
             "quick_cmd": "./check %s quick" % pid,
